@@ -21,6 +21,10 @@ import itertools
 
 from ..core import Siblings, WholeFloats, Sub, fail, lit, isnum
 
+# delivery-channel differential (core.Env): of every 2 evaluations that bind variables, one is repeated with the
+# values handed in by the cell/range listeners and one with the values returned by custom functions; outcomes must agree
+CHANNELS = 2
+
 BOUNDS = {
     'quick': 'INDEX: every nested array R x C with R,C <= 4 (numeric and text, position-coded elements) as '
              'variable, range and (R=2) literal, every flat list of length <= 4 as variable and as ,/; '
